@@ -1,6 +1,7 @@
 package bcheck
 
 import (
+	"io"
 	"verif/internal/refcodec"
 	"os"
 	"strconv"
@@ -24,7 +25,7 @@ import (
 func init() {
 	Registry["C14"] = &Check{
 		Scenarios: c14Scenarios,
-		Rule: "events: CloseNotify requested {inside the first handler, by a free application thread at every possible instant (in particular while the reader is parked in Read), twice (handler + thread), after termination}; two messages delivered in three fragments (one fragment boundary inside the first header); termination by {peer EOF, transport read error, a read error that reports itself as temporary (once), EOF / read error returned by the same Read that delivers the last message (n > 0 with err != nil), undecodable header followed by trailing bytes, local Close from a free thread at every instant, a handler panic on the second message (recovered by the serve loop)}; an observer thread records the instant the channel closes. The requesting / closing / observing threads and the peer are environment threads, so every ordering of their steps against the library's steps is explored even at preemption bound 0; library preemption bound 2 (quick) / unbounded (thorough). The same request modes {handler, thread, after} x terminations {EOF, undecodable input, local Close, EOF inside a header, EOF / reset inside a body} on a multistream (in-memory SCTP) connection, where CloseNotify installs a read-error handler. Also a handler (of a message read through the switched reader) that waits on the channel while the peer ends the connection {EOF, reset}: the notifier is then the only goroutine able to observe the end. Also a local Close while the handler of a later message is busy and the notifier holds the bytes of a further message; the busy handler then panics or returns. Also a local Close while an application goroutine's Write is stuck inside the transport (the peer has stopped reading). Also a connection accepted by a Server with ReadTimeout 2 s that idles into its read deadline (virtual clock), CloseNotify requested {in the handler, by a thread, not at all}. Also sm.Client with the watchdog enabled followed by a quiet peer close, preceded by 0, 1, 2 or 3 unsolicited success DWAs (in one segment or one segment each) (virtual time, horizon 12 s).",
+		Rule: "events: CloseNotify requested {inside the first handler, by a free application thread at every possible instant (in particular while the reader is parked in Read), twice (handler + thread), after termination}; two messages delivered in three fragments (one fragment boundary inside the first header); a Read after the local end was closed reports io.ErrClosedPipe / net.ErrClosed / the harness's own error depending on the request mode; termination by {peer EOF, transport read error, a read error that reports itself as temporary (once), EOF / read error returned by the same Read that delivers the last message (n > 0 with err != nil), undecodable header followed by trailing bytes, local Close from a free thread at every instant, a handler panic on the second message (recovered by the serve loop)}; an observer thread records the instant the channel closes. The requesting / closing / observing threads and the peer are environment threads, so every ordering of their steps against the library's steps is explored even at preemption bound 0; library preemption bound 2 (quick) / unbounded (thorough). The same request modes {handler, thread, after} x terminations {EOF, undecodable input, local Close, EOF inside a header, EOF / reset inside a body} on a multistream (in-memory SCTP) connection, where CloseNotify installs a read-error handler. Also a handler (of a message read through the switched reader) that waits on the channel while the peer ends the connection {EOF, reset}: the notifier is then the only goroutine able to observe the end. Also a local Close while the handler of a later message is busy and the notifier holds the bytes of a further message; the busy handler then panics or returns. Also a local Close while an application goroutine's Write is stuck inside the transport (the peer has stopped reading). Also a connection accepted by a Server with ReadTimeout 2 s that idles into its read deadline (virtual clock), CloseNotify requested {in the handler, by a thread, not at all}. Also sm.Client with the watchdog enabled followed by a quiet peer close, preceded by 0, 1, 2 or 3 unsolicited success DWAs (in one segment or one segment each) (virtual time, horizon 12 s).",
 		Assume: []string{"data-race freedom between visible operations (audited separately with -race)", "io.Pipe is modelled by vsched.Pipe (Write blocks until the data is consumed or either end is closed)"},
 		QuickBudget: 100, ThoroughBudget: 1500,
 	}
@@ -131,6 +132,9 @@ func c14Scenario(req, term string, bound int) *Scenario {
 		conn := vnet.NewConn("A")
 		conn.Pieces = 1
 		st.conn = conn
+		// what a Read reports once the local end has been closed differs between transports: the
+		// harness's own error, net.ErrClosed (sockets), io.ErrClosedPipe (net.Pipe, io.Pipe-backed)
+		conn.ClosedReadErr = map[string]error{"handler": io.ErrClosedPipe, "both": io.ErrClosedPipe, "thread": net.ErrClosed}[req]
 		var dc diam.Conn
 		request := func(c diam.Conn) {
 			ch := c.(diam.CloseNotifier).CloseNotify()
